@@ -293,7 +293,7 @@ PROPS["C10"] = {
         for u in range(4)
     ] + [
         R("digest-sha256-url%d" % u, "pkg/auth", "pkg/auth", ["ZzC10Digest"], flags={"concoff": True, "qtimeout": 30000, "unwind": 200, "workers": 4},
-          params={"URLLO": u, "NURL": u + 1}, quick_params={"SHA256": 1, "UL": 1, "PL": 1, "RL": 1, "NL": 1}, thorough_params={"SHA256": 1, "UL": 2, "PL": 1, "RL": 1, "NL": 1},
+          params={"URLLO": u, "NURL": u + 1}, quick_params={"SHA256": 1, "UL": 1, "PL": 1, "RL": 1, "NL": 1}, thorough_params={"SHA256": 1, "UL": 1, "PL": 1, "RL": 1, "NL": 1},
           tiers=("quick", "thorough") if u in (0, 1) else ("thorough",))
         for u in range(4)
     ] + [
@@ -323,10 +323,12 @@ PROPS["C05"] = {
 
 # ---------------------------------------------------------------- C12 (sequential kernel only) / C02 kernels
 PROPS["C12"] = {
-    "level_text": "Sequential kernel only: description.Media.URL (the client's control-attribute resolution, executed with the real net/url code) on a control attribute made of a fixed prefix/suffix and 1..2 (quick) / 3 (thorough) fully symbolic bytes never returns (nil, nil) and never panics, so the client always has either a URL for SETUP or an error to report.",
+    "level_text": "Sequential kernels only. (1) The read callbacks installed by the real clientMedia.initialize for every combination of client state (play / record), media direction (normal / back channel) and transport (interleaved / UDP) accept arbitrary RTP bytes (incl. a valid header for the media's payload type) and any receiver report without panicking. (2) description.Media.URL (the client's control-attribute resolution, executed with the real net/url code) on a control attribute made of a fixed prefix/suffix and 1..2 (quick) / 3 (thorough) fully symbolic bytes never returns (nil, nil) and never panics, so the client always has either a URL for SETUP or an error to report.",
     "level_note": "Everything else of C12 (API calls returning within timeouts, Close leaving nothing behind, behaviour under dropped/delayed responses, the 2500-line run loop) is scheduling and I/O and is NOT covered; regexp matching is done natively on concrete subjects and, for the symbolic control attribute, by the literal pre-filter (no '@' => no match, holes exclude '@').",
     "runs": [R("media-url", "pkg/description", "pkg/description", ["ZzC12MediaURL"], flags={"concoff": True}, quick_params={"HL": 2}, thorough_params={"HL": 3}),
-             R("media-url-any", "pkg/description", "pkg/description", ["ZzC12MediaURLAny"], flags={"concoff": True}, quick_params={"CL": 2}, thorough_params={"CL": 4})],
+             R("media-url-any", "pkg/description", "pkg/description", ["ZzC12MediaURLAny"], flags={"concoff": True}, quick_params={"CL": 2}, thorough_params={"CL": 4}),
+             R("media-frames", ".", "root", ["ZzC12ClientMediaFrames"], params={"GOSTUB": 1}, extras={"pkg/ringbuffer": "extra/ringbuffer", "internal/asyncprocessor": "extra/asyncprocessor"},
+               quick_params={"P": 13}, thorough_params={"P": 16})],
 }
 PROPS["C02"] = {
     "level_text": "Sequential kernels on the real code: (1) ServerSession.handleRequestInner state guard: for every session state and every state-changing method the request is refused with ErrServerInvalidState (status >= 400, state untouched, application not called) exactly when (method, state) is outside the RFC 2326 table written in the harness; a request refused by validation or by the application leaves the state unchanged; a request from another connection than the pinned one is refused in every state. (2) ServerConn.handleRequestOuter: exactly one response is written per request for all eleven methods, with the request's CSeq echoed (symbolic value), 400 without CSeq. (3) UDP liveness: every UDP entry point of a session media (RTP/RTCP while recording, RTP/RTCP while playing) refreshes the session's last-packet time for arbitrary RTP bytes / any receiver report, so a peer that keeps sending media or reports is not expired by the UDP timeout check.",
